@@ -289,6 +289,33 @@ def kwName : E → Option String
 
 def isKw (e : E) : Bool := (kwName e).isSome
 
+/-- A call event whose function term satisfies `q`. -/
+def trackedCall (q : E → Bool) : Event → Bool
+  | .call t =>
+    match callParts t with
+    | some (f, _) => q f
+    | none => false
+  | _ => false
+
+/-- Is this term a constant object injected into the namespace (`constAtom n`)? -/
+def isConstAtom : E → Bool
+  | .node (.atom nm) _ => nm == "const"
+  | _ => false
+
+/-- Is this term the object passed as graph input `t`? -/
+def isInAtom (t : Nat) (e : E) : Bool := e == inAtom t
+
+/-- C13 premise of the value-level theorem (decidable): the fuel of `Factory.root` suffices — one step less gives the same root. -/
+def rootStable (fg : Factory.Graph) : Bool :=
+  (List.range fg.tracers.length).all (fun x =>
+    Factory.rootF fg (fg.tracers.length - 1) x == Factory.rootF fg fg.tracers.length x)
+
+/-- C13 premise of the value-level theorem (decidable): a `Cast` of a single tracer yields a single tracer. -/
+def castsPlain (g : Graph) : Bool :=
+  g.apps.all (fun a => match a with
+    | .cast (.var _) o => (match o with | .var _ => true | _ => false)
+    | _ => true)
+
 /-- Positional arguments and keyword names of a call event. -/
 def callShape : Event → Option (E × List E × List String)
   | .call t =>
